@@ -84,7 +84,7 @@ KINDS = {
 KIND_ORDER = ("ack_only", "eliciting", "crypto", "padding")
 SIZES = (40, MDS)
 DT_US = (1000, 120000, 600000)
-DT_US_CUBIC_EXTRA = (2500000,)
+DT_US_CUBIC = (1000, 120000, 2500000)
 ACK_DELAY_MS = 25  # besides 0; = max_ack_delay
 
 EPOCHS = {
@@ -485,20 +485,6 @@ def loss_event_prefix(k):
     return h
 
 
-def seeds_for(algo, tier):
-    """Initial nodes: the fresh object, plus states reached by fixed real-API prefixes
-    that bring the window near its floor (Reno needs three halvings, more than the
-    depth bound)."""
-    s = [[]]
-    if algo == "reno":
-        s.append(loss_event_prefix(2))
-        if tier == "thorough":
-            s.append(loss_event_prefix(3))
-    else:
-        s.append(loss_event_prefix(1))
-    return s
-
-
 def build(algo, nspaces, client, history):
     """Fresh world + replay of a history; returns (world, first violation or None)."""
     w = World(algo, nspaces, client)
@@ -512,49 +498,64 @@ def build(algo, nspaces, client, history):
 
 
 # ================================================================== component
-def part_name(algo, nspaces, client):
-    return "%s.%dsp.%s" % (algo, nspaces, "client" if client else "server")
+def dts_for(algo):
+    # CUBIC: the long step is 2.5 s (> K_CUBIC_MAX_IDLE_TIME, idle reset) instead of 600 ms
+    return DT_US if algo == "reno" else DT_US_CUBIC
 
 
 def plan(tier):
-    """(algo, nspaces, client, ncap, depth) per part."""
+    """Runs: (name, algo, nspaces, client, sizes, packets per space, depth, seed prefix).
+
+    sizes: SIZES = the size of each packet is a free choice; "alt" = sizes alternate with
+    the packet number (no branching on size: one more level for the same cost).
+    Seeded runs start from a state reached by a fixed prefix of real API calls which
+    brings the window next to its floor (Reno needs three halvings = 11 events, beyond
+    any affordable depth from the fresh object); their histories include the prefix.
+    """
+    r2, r3, c1 = loss_event_prefix(2), loss_event_prefix(3), loss_event_prefix(1)
+    S, C = False, True
     if tier == "quick":
         return [
-            ("reno", 1, False, 4, 6),
-            ("cubic", 1, False, 4, 6),
-            ("reno", 2, False, 4, 5),
-            ("cubic", 2, False, 4, 5),
-            ("reno", 3, True, 4, 4),
-            ("cubic", 3, True, 4, 4),
+            ("reno.1sp.server.sizes", "reno", 1, S, SIZES, 4, 4, []),
+            ("reno.1sp.server.alt", "reno", 1, S, "alt", 4, 6, []),
+            ("reno.1sp.server.alt.seed2", "reno", 1, S, "alt", 5, 4, r2),
+            ("cubic.1sp.server.sizes", "cubic", 1, S, SIZES, 4, 4, []),
+            ("cubic.1sp.server.alt", "cubic", 1, S, "alt", 4, 6, []),
+            ("cubic.1sp.server.alt.seed1", "cubic", 1, S, "alt", 4, 4, c1),
+            ("reno.2sp.server.alt", "reno", 2, S, "alt", 4, 5, []),
+            ("cubic.2sp.server.alt", "cubic", 2, S, "alt", 4, 4, []),
+            ("reno.3sp.client.alt", "reno", 3, C, "alt", 4, 4, []),
+            ("cubic.3sp.client.alt", "cubic", 3, C, "alt", 4, 4, []),
         ]
     return [
-        ("reno", 1, False, 5, 8),
-        ("cubic", 1, False, 5, 8),
-        ("reno", 1, True, 5, 7),
-        ("cubic", 1, True, 5, 7),
-        ("reno", 2, False, 5, 6),
-        ("cubic", 2, False, 5, 6),
-        ("reno", 3, True, 5, 5),
-        ("cubic", 3, True, 5, 5),
-        ("reno", 3, False, 5, 5),
-        ("cubic", 3, False, 5, 5),
+        ("reno.1sp.server.sizes", "reno", 1, S, SIZES, 5, 6, []),
+        ("reno.1sp.server.alt", "reno", 1, S, "alt", 5, 7, []),
+        ("reno.1sp.server.alt.seed2", "reno", 1, S, "alt", 6, 5, r2),
+        ("reno.1sp.server.alt.seed3", "reno", 1, S, "alt", 7, 5, r3),
+        ("reno.1sp.client.alt", "reno", 1, C, "alt", 5, 6, []),
+        ("cubic.1sp.server.sizes", "cubic", 1, S, SIZES, 5, 5, []),
+        ("cubic.1sp.server.alt", "cubic", 1, S, "alt", 5, 7, []),
+        ("cubic.1sp.server.alt.seed1", "cubic", 1, S, "alt", 5, 5, c1),
+        ("cubic.1sp.client.alt", "cubic", 1, C, "alt", 5, 6, []),
+        ("reno.2sp.server.alt", "reno", 2, S, "alt", 5, 6, []),
+        ("cubic.2sp.server.alt", "cubic", 2, S, "alt", 5, 5, []),
+        ("reno.3sp.client.alt", "reno", 3, C, "alt", 5, 5, []),
+        ("reno.3sp.server.alt", "reno", 3, S, "alt", 5, 5, []),
+        ("cubic.3sp.client.alt", "cubic", 3, C, "alt", 5, 5, []),
     ]
 
 
-def run_part(ctx, algo, nspaces, client, ncap, depth):
-    name = part_name(algo, nspaces, client)
-    CFG["ncap"] = ncap
-    CFG["max_depth"] = depth
-    init = []
+def run_part(ctx, spec):
+    name, algo, nspaces, client, sizes, ncap, depth, prefix = spec
+    CFG.update(ncap=ncap, max_depth=depth, sizes=sizes, dts=dts_for(algo))
     base = {"algo": algo, "nspaces": nspaces, "client": client}
-    for prefix in seeds_for(algo, ctx.tier):
-        w, bad = build(algo, nspaces, client, prefix)
-        if bad is not None:
-            i, (sig, what) = bad
-            ctx.violation(dict(sig, cc=algo), what, dict(base, history=prefix[: i + 1]))
-            continue
-        w.seed_len = len(prefix)
-        init.append((key_of(w), pickle.dumps(w, -1), list(prefix)))
+    w, bad = build(algo, nspaces, client, prefix)
+    if bad is not None:
+        i, (sig, what) = bad
+        ctx.violation(dict(sig, cc=algo), what, dict(base, history=prefix[: i + 1]))
+        return None
+    w.seed_len = len(prefix)
+    init = [(key_of(w), pickle.dumps(w, -1), list(prefix))]
     res = explore.bfs(init, expand, max_depth=depth, workers=core.NCPU, name="c08." + name)
     floor = sum(1 for o in res.outcomes if len(o) > 5 and o[5])
     lossy = sum(1 for o in res.outcomes if len(o) > 3 and o[3])
@@ -567,16 +568,16 @@ def run_part(ctx, algo, nspaces, client, ncap, depth):
         max_depth=res.max_depth,
         closure=res.closed,
         depth_bound=depth,
+        seed_prefix_len=len(prefix),
         packets_per_space=ncap,
-        seeds=len(init),
         outcomes=len(res.outcomes),
         outcomes_with_loss=lossy,
         outcomes_at_window_floor=floor,
     )
-    if len(res.outcomes) < 8 or not lossy or not floor:
+    if len(res.outcomes) < 8 or not lossy:
         raise core.HarnessError(
-            "%s: vacuous exploration (%d outcomes, loss %d, floor %d)"
-            % (name, len(res.outcomes), lossy, floor)
+            "%s: vacuous exploration (%d outcomes, %d with a loss)"
+            % (name, len(res.outcomes), lossy)
         )
     for h in res.samples[:1]:
         ctx.sample({"part": name, "history": h})
@@ -590,30 +591,37 @@ def run_part(ctx, algo, nspaces, client, ncap, depth):
         ctx.violation(sig, what, dict(base, history=hist))
     if getattr(res, "capped", None):
         ctx.cap("%s: %s" % (name, res.capped))
-    return res
+    return floor
 
 
 def run_component(ctx):
-    parts = plan(ctx.tier)
-    for algo, nspaces, client, ncap, depth in parts:
-        if ctx.only_parts and part_name(algo, nspaces, client) not in ctx.only_parts:
+    specs = plan(ctx.tier)
+    floor = {}
+    for spec in specs:
+        if ctx.only_parts and spec[0] not in ctx.only_parts:
             continue
-        run_part(ctx, algo, nspaces, client, ncap, depth)
+        f = run_part(ctx, spec)
+        if f is not None:
+            floor[spec[1]] = floor.get(spec[1], 0) + f
+    if not ctx.only_parts and not ctx.violations:
+        for algo in ("reno", "cubic"):
+            if not floor.get(algo):
+                raise core.HarnessError("vacuous: %s never reached the window floor" % algo)
     ctx.cov["rule"] = (
         "explicit-state BFS over the real QuicPacketRecovery + QuicPacketSpace + Reno/CUBIC "
-        "objects (private deep copy per transition); alphabet = send(space, 4 flag kinds, 2 sizes), "
-        "ack(space, every non-empty range set over {0..N+1}, 2 ack delays), 3-4 time steps, exact "
-        "timer expiry, loss-detection timeout, discard(space), reschedule_data; C08 ledger / "
+        "objects (private deep copy per transition); alphabet = send(space, 4 flag kinds, size), "
+        "ack(space, every non-empty range set over {0..N+1}, ack delay 0 / 25 ms), 3 time steps, "
+        "exact timer expiry, loss-detection timeout, discard(space), reschedule_data; C08 ledger / "
         "at-most-once / window-floor / timer invariants evaluated after every call; a state is "
         "distinct by the digest of its complete concrete recovery, controller and harness state"
     )
     ctx.cov["bounds"] = {
-        "parts": {
-            part_name(a, n, c): {"packets_per_space": ncap, "depth": d} for a, n, c, ncap, d in parts
+        "runs": {
+            sp[0]: {"sizes": sp[4] if sp[4] == "alt" else list(sp[4]), "packets_per_space": sp[5],
+                    "depth": sp[6], "seed_prefix": sp[7]}
+            for sp in specs
         },
-        "sizes": list(SIZES),
-        "dt_us": list(DT_US),
-        "dt_us_cubic_extra": list(DT_US_CUBIC_EXTRA),
+        "dt_us": {"reno": list(DT_US), "cubic": list(DT_US_CUBIC)},
         "ack_delay_ms": [0, ACK_DELAY_MS],
         "closure": False,
     }
@@ -628,6 +636,8 @@ def run_component(ctx):
         "is never 0.0",
         "no send / ack / second discard on a discarded space (keys are gone in the connection); "
         "reschedule_data at most once; the timeout is fired only when due",
+        "at most one adv(dt) between two other events; ack delay 25 ms only with range sets "
+        "whose largest number is a tracked packet",
     ]
 
 
